@@ -271,7 +271,9 @@ HistStep(e) ==
                             ELSE IF mine # {<<t, want[1], want[2]>>} THEN {ent("TagResolves", <<"names-another-version", "">>)}
                             ELSE IF want \in changedKeys THEN {}      \* reported by BranchIsolation
                             ELSE LET r == TagRead(obs, t) IN
-                                 IF r.res = "ok" /\ r.mv = want[2] /\ r.mbranch = want[1] /\ want \in kept /\ RowSet(r.rows) = g[want]
+                                 \* (a version damaged by an earlier, reported violation stays unreadable through the tag too)
+                                 IF want \in kept /\ ((g[want] = ERR /\ r.res # "ok")
+                                                       \/ (r.res = "ok" /\ r.mv = want[2] /\ r.mbranch = want[1] /\ RowSet(r.rows) = g[want]))
                                  THEN {} ELSE {ent("TagResolves", <<"reads-another-version", "">>)}
                             : t \in DOMAIN tags2}
       \* ghost after the step, re-synchronised with the observation
